@@ -11,7 +11,7 @@ def run(v, prefixes=("C08",), pid="C08"):
     ser, org, utils = cells.api()
     events = []
     unis = ("U1", "U2", "U3") if quick else ("U1", "U2", "U3", "U4", "U5")
-    per_uni = 2500 if quick else 40000
+    per_uni = (1500 if pid == "C08" else 1100) if quick else 40000
     n_model = 0
     for name in unis:
         res = cp.run_universe(d, name, timeout=3000)
@@ -44,7 +44,7 @@ def run(v, prefixes=("C08",), pid="C08"):
     faces = ser.cell_to_children(0, 0)
     events.append(cp.compact_event(ser.cell_to_children(faces[0], 1) + faces[1:]))
     # B2: random inputs at resolutions TLC does not enumerate
-    n_rand = (250 if quick else 3000)
+    n_rand = (180 if quick else 3000)
     for k in range(n_rand):
         size = rng.choice([5, 20, 60, 150] if quick else [5, 20, 60, 150, 600, 2000])
         base = cp.random_antichain(p, rng, size, maxres=rng.choice([3, 6, 12, 29]))
@@ -59,7 +59,7 @@ def run(v, prefixes=("C08",), pid="C08"):
                     extra += rng.sample(ser.cell_to_children(c, r + rng.randrange(1, 3)), 3)
             base = base + extra
         events.append(cp.compact_event(cp.permuted(base, rng)))
-    for k in range(150 if quick else 2000):
+    for k in range(110 if quick else 2000):
         groups = cp.deep_descent(p, rng)
         for g in groups:
             others = cp.random_antichain(p, rng, 6, maxres=2) if rng.random() < 0.3 else []
